@@ -4,6 +4,8 @@ import (
 	"fmt"
 	"strings"
 
+	"github.com/woodsbury/jmespath"
+
 	"verif/harness/gen"
 	"verif/harness/ref"
 )
@@ -114,8 +116,48 @@ func numbersExactV(v ref.V) bool {
 
 // c10Chain checks one operator chain; returns the number of distinguishing
 // instances found.
+// astGrouping: the compiled form of a chain must be the very tree of the chain
+// with its implied parentheses written out (parentheses leave no node behind),
+// observed through the fingerprint hook: decides groupings that no document
+// can distinguish (a + b - c).
+func (c *Ctx) astGrouping(T, spec string, feats map[string]string) {
+	e1, l1 := c.LibCompile(T)
+	e2, l2 := c.LibCompile(spec)
+	if l1.Err != nil || l2.Err != nil || l1.Panic != nil || l2.Panic != nil {
+		if (l1.Err != nil) != (l2.Err != nil) {
+			c.Report(Violation{Rule: "C10/ast-grouping", Expr: T, Got: ShowOut(l1), Want: ShowOut(l2) + " (compiling " + spec + ")", Features: feats})
+		}
+		return
+	}
+	f1, _ := jmespath.VerifASTFingerprint(e1)
+	f2, _ := jmespath.VerifASTFingerprint(e2)
+	c.Count("ast_groupings_compared", 1)
+	if f1 != f2 {
+		c.Report(Violation{Rule: "C10/ast-grouping", Expr: T, Got: "compiled tree differs from the tree of " + spec, Want: "identical trees (same grouping)", Features: feats})
+	}
+}
+
 func (c *Ctx) c10Chain(r *gen.R, ops []string, unary bool) int {
 	found := 0
+	// structural check first, on plain field operands (needs no document)
+	{
+		names := []string{"a", "b", "c", "d"}
+		var b strings.Builder
+		for i := 0; i <= len(ops); i++ {
+			if i > 0 {
+				b.WriteString(" " + ops[i-1] + " ")
+			}
+			if unary && i%2 == 0 {
+				b.WriteString(gen.Pick(r, []string{"!", "-", "+", "−"}))
+			}
+			b.WriteString(names[i])
+		}
+		T := b.String()
+		if pr := ref.Parse(T); pr.Status == ref.ParseOK {
+			c.astGrouping(T, ref.FullParen(pr.Node), map[string]string{"operators": strings.Join(ops, " ")})
+			c.Nontrivial("ast", T)
+		}
+	}
 	for attempt := 0; attempt < 400 && found < 3; attempt++ {
 		texts := make([]string, len(ops)+1)
 		for i := range texts {
@@ -276,7 +318,7 @@ func c10Tight(c *Ctx, idx int) {
 func init() {
 	Register(&Property{
 		ID:            "C10",
-		Rule:          "unparenthesised chains of binary operators: all 18x18 ordered pairs (with and without unary prefixes !, -, +, U+2212 on operands) and all 18^3 ordered triples (thorough; a seeded sample in quick) of the operator spellings | || && == != < <= > >= + - U+2212 * U+00D7 / U+00F7 // % around operands drawn from fields, literals, selectors, function calls, parenthesised expressions and projections; for each chain the generator searches documents on which the specified grouping gives a value that every other binary-tree grouping does not (only such distinguishing instances count); checks: library(chain) = model(chain), library(chain) = library(chain with the implied parentheses written out), and every alternative grouping written with explicit parentheses = model; plus selectors/unary operators against every binary operator",
+		Rule:          "unparenthesised chains of binary operators: all 18x18 ordered pairs (with and without unary prefixes !, -, +, U+2212 on operands) and all 18^3 ordered triples (thorough; a seeded sample in quick) of the operator spellings | || && == != < <= > >= + - U+2212 * U+00D7 / U+00F7 // % around operands drawn from fields, literals, selectors, function calls, parenthesised expressions and projections; for each chain the generator searches documents on which the specified grouping gives a value that every other binary-tree grouping does not (only such distinguishing instances count); checks: compiled tree of the chain = compiled tree of the chain with the implied parentheses written out (AST fingerprint hook; decides groupings no document can distinguish), library(chain) = model(chain), library(chain) = library(chain with the implied parentheses written out), and every alternative grouping written with explicit parentheses = model; plus selectors/unary operators against every binary operator",
 		MinNontrivial: 500,
 		Streams: []Stream{
 			{Name: "pairs", N: func(c *Ctx) int { return 2 * len(c10Ops) * len(c10Ops) }, Run: c10Pairs, Exhaustive: true},
